@@ -40,9 +40,9 @@ type Violation struct {
 
 // Result of checking one execution.
 type Result struct {
-	Violations []Violation    `json:"violations"`
-	Cov        map[string]int `json:"cov"`
-	Notes      []string       `json:"notes,omitempty"`
+	Violations []Violation        `json:"violations"`
+	Cov        map[string]int     `json:"cov"`
+	Notes      []string           `json:"notes,omitempty"`
 	Lat        map[string][]int64 `json:"lat,omitempty"` // measured latencies (virtual ms) per metric
 }
 
